@@ -50,9 +50,30 @@ package ice
 //@   props C13
 //@   requires s.ctx != nil
 //@   ensures closed-handle-fails: s.ctx.gDone ==> err != nil && ctx == nil && cancel == nil
+//@   site call WithDeadline#1 assert deadline-context-derives-from-the-handles-own-context: arg0 == s.ctx
 //@   ensures open-handle-reads-under-its-own-context: !ctxIsDone(s.ctx) ==> err == nil && ctx != nil
 
 // Atomic-counter lemma: k live handles, each Close performs one atomic Add(-1);
 // the results are k-1, ..., 0 in the order of the atomic operations, so exactly
 // one Close sees a value <= 0: the last one. Stated over the counter values.
 //@ lemma C13 lastDecrementSeesZero: forall k int, i int :: k >= 1 && 1 <= i && i <= k ==> ((k - i <= 0) == (i == k))
+
+// Aborting a blocked write on the shared UDP socket: the blocked writers are
+// released only after the socket's write deadline has been cleared again, by the
+// last in-flight writer; the abort state is dropped early only by an abort whose
+// own SetWriteDeadline failed (nothing was armed).
+//@ func (*UDPMuxDefault).clearWriteDeadlineAfterAbort
+//@   props C13
+//@   ghostvar deadlineCleared bool = false
+//@   site call SetWriteDeadline#1 assert clears-the-shared-sockets-deadline: recv == m.params.UDPConn
+//@   site call SetWriteDeadline#1 ghost deadlineCleared := true
+//@   site call Store#0 assert writers-are-released-only-after-the-deadline-was-cleared: deadlineCleared && arg1 == 0
+
+//@ func (*UDPMuxDefault).abortWrite
+//@   props C13
+//@   site call SetWriteDeadline#1 assert arms-the-shared-sockets-deadline: recv == m.params.UDPConn
+//@   site call clearWriteAbortState#1 assert abort-state-dropped-only-if-arming-failed: err != nil
+//@   site call setWriteDeadlineArmed#1 assert armed-flag-only-after-arming-succeeded: err == nil
+
+//@ enumerate C13 calls ice.(*UDPMuxDefault).clearWriteAbortState in (*UDPMuxDefault).abortWrite
+//@ enumerate C13 calls ice.(*UDPMuxDefault).clearWriteDeadlineAfterAbort in (*UDPMuxDefault).finishWrite
